@@ -11,6 +11,7 @@ Protocol ops of property C20 (tolerances, global settings).
 * `c20_knot_spans <basis> <tol> <ghost>`       → list
 * `c20_vertexdict <rtol> <atol> [[op,key,val]…]` → one result per op
 * `c20_state_nest <prog> [[name,val]…] <block>` → `[outcome, [final values of the names]]`
+* `c20_allclose <rtol> <atol> [a…] [b…]`        → `true|false` (`np.allclose` of `Orientation.compute`)
 * `c20_echo <v>`                               → `<v>` (model of "a library call leaves the settings alone")
 -/
 
@@ -149,6 +150,12 @@ def handle : Handler
       let r := b.exec prog (fun st => (.raised, st)) s0
       let o := match r.1 with | .normal => "normal" | .raised => "raised"
       return .list [.str o, Val.ofRats (init.map (fun p => r.2 p.1))]
+  | "c20_allclose", [rv, av, xs, ys] => some <| Id.run do
+      let some rtol := rv.toRat? | return bad
+      let some atol := av.toRat? | return bad
+      let some a := xs.toRats? | return bad
+      let some b := ys.toRats? | return bad
+      return Val.ofBool (allclose rtol atol a b)
   | "c20_echo", [v] => some v
   | _, _ => none
 
